@@ -10,15 +10,54 @@ use std::sync::atomic::{AtomicBool, Ordering};
 use vcore::{Run, report::machinery, util};
 use vserver::matrix::{Report, Select, history_json, run_state};
 use vserver::model::{Event, Model, Root};
+use vserver::names::{self, Names};
 use vserver::table::{self, Tables};
 use vserver::world::runtime;
 
-fn run_one(tables: &Tables, root: Root, history: &[Event], select: &Select) -> Report {
+fn run_one(tables: &Tables, names: Names, root: Root, history: &[Event], select: &Select) -> Report {
     anda_db_utils::verif::set_clock(Some((1_700_000_000_000, 1)));
+    names::install(names);
     let rt = runtime();
     let rep = rt.block_on(run_state(tables, root, history, select));
     drop(rt);
     rep
+}
+
+/// Every control state reachable from `roots` in at most `depth` enabled
+/// events (merged by canonical control state), with the first history found.
+fn states_to_depth(roots: &[Root], depth: usize) -> Vec<(Root, Vec<Event>)> {
+    let mut visited: BTreeSet<String> = BTreeSet::new();
+    let mut frontier: Vec<(Root, Vec<Event>, Model)> = Vec::new();
+    for root in roots {
+        let m = Model::of_root(*root);
+        if visited.insert(m.canon()) {
+            frontier.push((*root, vec![], m));
+        }
+    }
+    let mut out: Vec<(Root, Vec<Event>)> = Vec::new();
+    for d in 0..=depth {
+        out.extend(frontier.iter().map(|(r, h, _)| (*r, h.clone())));
+        if d == depth {
+            break;
+        }
+        let mut next = Vec::new();
+        for (root, history, m) in &frontier {
+            for e in Event::all() {
+                if !m.enabled(e) {
+                    continue;
+                }
+                let mut m2 = m.clone();
+                m2.apply(e);
+                if visited.insert(m2.canon()) {
+                    let mut h = history.clone();
+                    h.push(e);
+                    next.push((*root, h, m2));
+                }
+            }
+        }
+        frontier = next;
+    }
+    out
 }
 
 fn main() {
@@ -33,15 +72,21 @@ fn main() {
             .unwrap_or_else(|e| machinery(&format!("parse {file:?}: {e}")));
         let r = &doc["replay"];
         let root = Root::parse(r["root"].as_str().unwrap_or("")).unwrap_or_else(|| machinery("replay: bad root"));
+        // (a replay file written before the name universe was parameterised has no `names`)
+        let universe = match r["names"].as_str() {
+            Some(label) => names::shape(label).unwrap_or_else(|| machinery("replay: unknown name universe")),
+            None => names::shapes()[0],
+        };
+        names::install(universe);
         let history: Vec<Event> = r["history"]
             .as_array()
             .unwrap_or_else(|| machinery("replay: no history"))
             .iter()
             .map(|e| Event::from_json(e).unwrap_or_else(|| machinery("replay: bad event")))
             .collect();
-        let select = Select { only_phase: r["phase"].as_str().map(|s| s.to_string()), lite: false };
+        let select = Select { only_phase: r["phase"].as_str().map(|s| s.to_string()), lite: false, focus_reject: false };
         let want = doc["signature"].as_str().unwrap_or("").to_string();
-        let rep = run_one(&tables, root, &history, &select);
+        let rep = run_one(&tables, universe, root, &history, &select);
         for m in &rep.machinery {
             eprintln!("machinery: {m}");
         }
@@ -69,7 +114,8 @@ fn main() {
 
     let max_depth: usize = std::env::var("C14_DEPTH").ok().and_then(|s| s.parse().ok()).unwrap_or(run.tier.pick(2, 8));
     let roots = [Root::Admin, Root::Loopback, Root::AdminAB, Root::AdminA];
-    let select = Select { only_phase: None, lite: run.tier == vcore::Tier::Quick };
+    let select = Select { only_phase: None, lite: run.tier == vcore::Tier::Quick, focus_reject: false };
+    let default_names = names::shapes()[0];
     let threads = util::n_threads();
 
     let mut visited: BTreeSet<String> = BTreeSet::new();
@@ -90,6 +136,70 @@ fn main() {
     let mut samples: BTreeMap<String, Vec<Value>> = BTreeMap::new();
     let deadline_hit = AtomicBool::new(false);
 
+    // ---- namespace pass: the other name universes. The event BFS below runs
+    // in the default universe (`prefix`); here every other universe is taken
+    // through every control state reachable in <= ns_depth events from the two
+    // roots that hold a tenant binding, with the complete tenant / twin /
+    // admin worlds and the reject world on the focused body subset.
+    let ns_depth: usize = std::env::var("C14_NS_DEPTH").ok().and_then(|s| s.parse().ok()).unwrap_or(run.tier.pick(1, 2));
+    let ns_states = states_to_depth(&[Root::AdminAB, Root::AdminA], ns_depth);
+    let ns_select = Select { only_phase: None, lite: run.tier == vcore::Tier::Quick, focus_reject: true };
+    let ns_jobs: Vec<(Names, Root, Vec<Event>)> = names::shapes()[1..]
+        .iter()
+        .flat_map(|n| ns_states.iter().map(move |(r, h)| (*n, *r, h.clone())))
+        .collect();
+    let ns_total = ns_jobs.len();
+    let mut ns_per_shape: BTreeMap<&'static str, (u64, u64)> = BTreeMap::new();
+    {
+        let t0 = run.elapsed();
+        let budget_left = run.remaining_s();
+        let start = std::time::Instant::now();
+        let reports = util::par_map(ns_jobs, threads, |(n, root, history)| {
+            if start.elapsed().as_secs_f64() > budget_left {
+                return None;
+            }
+            Some((n.label, run_one(&tables, n, root, &history, &ns_select)))
+        });
+        let mut skipped = 0;
+        let mut evals = 0;
+        for rep in reports {
+            let Some((label, rep)) = rep else {
+                skipped += 1;
+                continue;
+            };
+            run.add("states", 1);
+            run.add("namespace_states", 1);
+            run.add("traces_validated_against_impl", rep.counters.get(&"worlds_built").copied().unwrap_or(0));
+            let e = rep.counters.get(&"evaluations").copied().unwrap_or(0);
+            evals += e;
+            let slot = ns_per_shape.entry(label).or_insert((0, 0));
+            slot.0 += 1;
+            slot.1 += e;
+            ok_methods.extend(rep.ok_methods.iter().cloned());
+            without_params.extend(rep.methods_without_params.iter().cloned());
+            reject_shapes.extend(rep.reject_shapes.iter().cloned());
+            machinery_msgs.extend(rep.machinery.iter().map(|m| format!("[names {label}] {m}")));
+            rep.merge_into(&mut run);
+        }
+        if skipped > 0 {
+            run.cap_hit(&format!("time budget: {skipped} of {ns_total} (name universe, control state) pairs of the namespace pass not examined"));
+        }
+        eprintln!("namespace pass: {} universes x {} states, {evals} requests, {:.1}s", names::shapes().len() - 1, ns_states.len(), run.elapsed() - t0);
+        run.set(
+            "namespace_pass",
+            json!({
+                "depth": ns_depth,
+                "control_states": ns_states.len(),
+                "wall_s": run.elapsed() - t0,
+                "universes": names::shapes().iter().map(|n| json!({
+                    "label": n.label, "relation": n.relation, "primary": n.primary, "A": n.dbs[0], "B": n.dbs[1], "missing": n.missing,
+                    "states": ns_per_shape.get(n.label).map(|x| x.0), "requests": ns_per_shape.get(n.label).map(|x| x.1),
+                    "used_by": if n.label == default_names.label { "the whole event BFS (and the parts reads, faults, race)" } else { "namespace pass" },
+                })).collect::<Vec<_>>(),
+            }),
+        );
+    }
+
     for depth in 0..=max_depth {
         if !run.in_budget() {
             run.cap_hit(&format!("time budget: stopped before depth {depth} (completed depth {completed_depth:?})"));
@@ -104,7 +214,7 @@ fn main() {
                 deadline_hit.store(true, Ordering::Relaxed);
                 return None;
             }
-            Some(run_one(&tables, root, &history, &select))
+            Some(run_one(&tables, default_names, root, &history, &select))
         });
         let mut evals = 0;
         let mut skipped = 0;
@@ -196,8 +306,20 @@ fn main() {
          GET / + POST / + POST /{11 target spellings} x every method of both scraped tables and 3 unknown names x {minimal, malformed params} \
          + 6 body probes x {CBOR, JSON} x every principal (none, 3 garbage, 3 malformed headers, admin, every issued token and one unissued per database, \
          hash of the bound token; plus, with a 6-body subset, constructed near misses of every existing key (admin, bound, revoked): garbage tokens whose SHA3-256 digest agrees with the key's digest in the last byte / first byte / first 2 / last 2 bytes, the key minus its last character, the key plus one character, the hex of its digest; quick tier: 1 garbage and 1 malformed header, and minimal-params bodies + probes only on the two path-level targets) is sent through build_router(..).oneshot on fresh replays of the history. distinct = (access class, principal kind, \
-         target class incl. database status/binding, encoding, body, variant)",
+         target class incl. database status/binding, encoding, body, variant). \
+         NAMES: every world lives in a name universe (primary, A, B, missing) that is adversarial for string handling: the event BFS runs in `prefix` \
+         (A `acme` is a proper prefix of B `acme_eu`, the missing name `acme_e` lies between them); the namespace pass takes the six other universes \
+         (proper suffix; inner substring; names differing only in a separator `ac_me`/`acme`; the primary's name as prefix of A and suffix of B; A's / B's name as \
+         prefix / suffix of the primary's; 63/64-byte names with a 65-byte missing name) through every control state within 1 (thorough 2) events of the two roots \
+         that hold a binding, with complete tenant / twin / admin worlds and the reject world on a 6-body subset. Every universe adds 8 near spellings of each \
+         tenant name as targets (upper case, capitalised, truncated, extended by `_`, separator removed/inserted, double percent-encoded, trailing %20, trailing %00; 6-body subset). \
+         CONTENT: a tenant's answers are scanned leftmost-longest for every name, marker, token and hash it must not see (its own name is skipped as a whole, so `acme` \
+         inside `acme_eu` is told apart from `acme`), and compared byte for byte with two twin worlds: one where only the other database's content differs, one where \
+         the other database was never created and the primary database has another name. VERBS: GET (except `GET /`), PUT, DELETE, PATCH, HEAD, OPTIONS on every \
+         target x every credential: not served on a database route, no store call, same bytes for every credential and as for a database that never existed. \
+         ENCODING: besides CBOR/JSON bodies, Accept naming the other encoding, an unusable Accept, and a case/parameter variant of the content type",
     );
+    run.assume("logical clock: every control event starts at its own fixed logical time and the clock stands still during a restart event, every tenant cell starts at its own fixed time: timestamps inside a database depend on that database's requests only (needed to compare twin worlds byte for byte; real-time skew between tenants is not observed)");
     run.assume("the object store is CtlStore over InMemory; one request at a time (no concurrent requests); response headers, status and body are the whole observable (no timing)");
     run.assume("histories that reach the same canonical control state are merged: the first-reached history is the one executed on the server (its event outcomes, db.list and the persisted key hashes are compared with the model)");
     run.assume("effect labels are read from the source text of RootMethod::parse / DbMethod::parse (checked against the server's method_not_found answers)");
